@@ -22,8 +22,7 @@ CFG = {
 
 SMALL = {
     'templates': ['m2m', 'o2m_opt', 'self', 'composite', 'mixed_cascade'],
-    'length': {'quick': 3, 'thorough': 4},
-    'budget': {'quick': 12000, 'thorough': 400000},
+    'budget': {'quick': 9000, 'thorough': 500000},
     'monitors': CFG['monitors'],
 }
 
